@@ -207,6 +207,10 @@ class Crate:
         self.data = data
         self.name = data["crate"]
         self.bodies = {}
+        # private helper functions are spliced into their callers before any analysis (see inline.py)
+        import inline
+        self.inlined = inline.inline_crate(data["bodies"]) if not data.get("_inlined") else {}
+        data["_inlined"] = True
         for b in data["bodies"]:
             self.bodies[b["id"]] = Body(b, self)
         self.adts = {a["n"]: a for a in data["adts"]}
@@ -497,3 +501,102 @@ def widening_conversion(term):
     if to in _INT_BITS and frm in _INT_BITS and len(term.get("args", [])) == 1:
         return to, frm
     return None
+
+
+# ---------------------------------------------------------------- reachability that sees through bool temporaries
+def _const_bool(o):
+    k = o.get("k") if isinstance(o, dict) else None
+    if k and (k.get("ty") or {}).get("n") == "bool" and isinstance(k.get("v"), int):
+        return bool(k["v"])
+    return None
+
+
+def bool_locals_of(body):
+    bl = getattr(body, "_bool_locals", None)
+    if bl is None:
+        bl = {l for l, loc in enumerate(body.locals) if ty_str(loc["ty"]) == "bool"}
+        body._bool_locals = bl
+    return bl
+
+
+def bool_transfer(body, bb, known):
+    """Known constant values of bool locals after the statements and the call destination of block bb.
+    Tracked: `x = const true|false`, `x = copy/move y`, `x = !y`; any other write forgets x."""
+    known = dict(known)
+    bool_locals = bool_locals_of(body)
+    blk = body.blocks[bb]
+    for s in blk["stmts"]:
+        if s["s"] != "assign" or s["p"]["p"] or s["p"]["l"] not in bool_locals:
+            continue
+        dl, rv = s["p"]["l"], s["rv"]
+        val = None
+        if rv["r"] == "use":
+            val = _const_bool(rv["o"])
+            if val is None:
+                src = op_local(rv["o"])
+                if src is not None and src in known:
+                    val = known[src]
+        elif rv["r"] == "un" and rv.get("op") == "Not":
+            src = op_local(rv["a"])
+            if src is not None and src in known:
+                val = not known[src]
+        if val is None:
+            known.pop(dl, None)
+        else:
+            known[dl] = val
+    t = blk["term"]
+    if t["t"] == "call" and not t["dest"]["p"]:
+        known.pop(t["dest"]["l"], None)
+    return known
+
+
+def bool_switch_target(body, bb, known):
+    """If block bb ends in a switch on a bool local whose value is known: the only feasible successor."""
+    t = body.blocks[bb]["term"]
+    if t["t"] != "switch":
+        return None
+    l = op_local(t["d"])
+    if l is None or l not in known:
+        return None
+    want = 1 if known[l] else 0
+    for v, tb in t["targets"]:
+        if v == want:
+            return tb
+    return t["else"]
+
+
+def feasible_reach(body, start=0, cut_edges=(), cut_blocks=(), init=None):
+    """Blocks reachable from `start` when edges in cut_edges / blocks in cut_blocks are removed, following a
+    switch on a bool local only along the edge its (path-sensitively tracked) constant value allows.
+    This makes `matches!(v, A | B)` / `let flag = ..; if flag` equivalent to branching on the original test."""
+    cut_edges = set(cut_edges)
+    cut_blocks = set(cut_blocks)
+    s0 = (start, frozenset((init or {}).items()))
+    seen = {s0}
+    st = [s0]
+    blocks = set()
+    while st:
+        bb, kn = st.pop()
+        if bb in cut_blocks:
+            continue
+        blocks.add(bb)
+        known = bool_transfer(body, bb, kn)
+        only = bool_switch_target(body, bb, known)
+        succs = [only] if only is not None else list(body.succ[bb])
+        k2 = frozenset(known.items())
+        for nb in succs:
+            if (bb, nb) in cut_edges:
+                continue
+            ns = (nb, k2)
+            if ns not in seen:
+                seen.add(ns)
+                st.append(ns)
+    return blocks
+
+
+def switch_target(term, value):
+    """Successor of a switch terminator for discriminant `value` (a listed target or the fall-through)."""
+    for v, tb in term["targets"]:
+        if v == value:
+            return tb
+    return term["else"]
